@@ -70,53 +70,46 @@ def cal_neighbors(snapshots: Snapshots, outputfile: str = None) -> None:
 
     list_box, list_points = convert_configuration(snapshots)
 
-    foverall = open(outputfile + ".overall.dat", "w", encoding="utf-8")
-    foverall.write("id cn area_or_volume\n")
-    fneighbors = open(outputfile + ".neighbor.dat", "w", encoding="utf-8")
-
     ndim = snapshots.snapshots[0].positions.shape[1]
-    if ndim == 2:
-        fbondinfos = open(outputfile + ".edgelength.dat", "w", encoding="utf-8")
-    else:
-        fbondinfos = open(outputfile + ".facearea.dat", "w", encoding="utf-8")
+    bondname = ".edgelength.dat" if ndim == 2 else ".facearea.dat"
+    with open(outputfile + ".overall.dat", "w", encoding="utf-8") as foverall, \
+            open(outputfile + ".neighbor.dat", "w", encoding="utf-8") as fneighbors, \
+            open(outputfile + bondname, "w", encoding="utf-8") as fbondinfos:
+        foverall.write("id cn area_or_volume\n")
+        for n in range(snapshots.nsnapshots):
+            # write header for each configuration
+            fneighbors.write("id   cn   neighborlist\n")
+            if ndim == 2:
+                fbondinfos.write("id   cn   edgelengthlist\n")
+            else:
+                fbondinfos.write("id   cn   facearealist\n")
 
-    for n in range(snapshots.nsnapshots):
-        # write header for each configuration
-        fneighbors.write("id   cn   neighborlist\n")
-        if ndim == 2:
-            fbondinfos.write("id   cn   edgelengthlist\n")
-        else:
-            fbondinfos.write("id   cn   facearealist\n")
+            # calculation
+            box, points = list_box[n], list_points[n]
+            voro = freud.locality.Voronoi()
+            voro.compute((box, points))
+            # change to particle ID
+            nlist = np.array(voro.nlist) + 1
+            weights = voro.nlist.weights
+            volumes = voro.volumes
 
-        # calculation
-        box, points = list_box[n], list_points[n]
-        voro = freud.locality.Voronoi()
-        voro.compute((box, points))
-        # change to particle ID
-        nlist = np.array(voro.nlist) + 1
-        weights = voro.nlist.weights
-        volumes = voro.volumes
-
-        # output
-        unique, counts = np.unique(nlist[:, 0], return_counts=True)
-        nn = 0
-        for i in range(unique.shape[0]):
-            atomid = unique[i]
-            if (atomid != nlist[nn, 0]) or (i + 1 != atomid):
-                raise ValueError("neighbor list not sorted")
-            i_cn = counts[i]
-            fneighbors.write("%d %d " % (atomid, i_cn))
-            fbondinfos.write("%d %d " % (atomid, i_cn))
-            foverall.write("%d %d %.6f\n" % (atomid, i_cn, volumes[i]))
-            for _ in range(i_cn):
-                fneighbors.write("%d " % nlist[nn, 1])
-                fbondinfos.write("%.6f " % weights[nn])
-                nn += 1
-            fneighbors.write("\n")
-            fbondinfos.write("\n")
-    fneighbors.close()
-    fbondinfos.close()
-    foverall.close()
+            # output
+            unique, counts = np.unique(nlist[:, 0], return_counts=True)
+            nn = 0
+            for i in range(unique.shape[0]):
+                atomid = unique[i]
+                if (atomid != nlist[nn, 0]) or (i + 1 != atomid):
+                    raise ValueError("neighbor list not sorted")
+                i_cn = counts[i]
+                fneighbors.write("%d %d " % (atomid, i_cn))
+                fbondinfos.write("%d %d " % (atomid, i_cn))
+                foverall.write("%d %d %.6f\n" % (atomid, i_cn, volumes[i]))
+                for _ in range(i_cn):
+                    fneighbors.write("%d " % nlist[nn, 1])
+                    fbondinfos.write("%.6f " % weights[nn])
+                    nn += 1
+                fneighbors.write("\n")
+                fbondinfos.write("\n")
 
     logger.info("Finish calculating neighbors by freud")
 
